@@ -25,8 +25,13 @@ def sh(cmd, cwd=None, timeout=None):
 
 
 def demo_dir(readme, default):
-    m = re.search(r"mkdir(?:\s+-p)?\s+([A-Za-z0-9_./-]+)", readme)
-    return m.group(1).rstrip("/") if m else default
+    m = re.search(r"mkdir(?:\s+-p)?\s+([^\s;&]+)", readme)
+    if not m:
+        return default
+    d = m.group(1).strip("\"'").rstrip("/")
+    d = re.sub(r"^\$\{?\w+\}?/", "", d)          # $WT/demo -> demo
+    d = re.sub(r"^/tmp/mut3/\w+/wt/", "", d)
+    return d if d and not d.startswith(("-", "$", "/")) else default
 
 
 def confirm(prop, n, src, wt, log):
